@@ -106,6 +106,22 @@ def _run_model_chunk(lines):
             res.append(("", "bad:driver-died:" + p.stderr.decode("utf-8", "replace")[-200:].replace("\n", " "), "-"))
         return res
 
+def rerun_impl_slow(line, timeout=120):
+    """one case alone, with generous limits: tells a real hang / stack overflow from a machine that is merely busy"""
+    with tempfile.TemporaryDirectory(prefix="sv_", dir=CACHE) as td:
+        cf = os.path.join(td, "cases")
+        with open(cf, "w") as f:
+            f.write(line + "\n")
+        env = dict(os.environ); env["VERIF_CASE_TIMEOUT_MS"] = str(timeout * 1000)
+        try:
+            p = subprocess.run([HARNESS_BIN, cf], stdout=subprocess.PIPE, stderr=subprocess.DEVNULL, timeout=timeout + 10, env=env)
+            data = p.stdout
+        except subprocess.TimeoutExpired as e:
+            data = e.stdout or b""
+        frames = parse_frames(data.decode("utf-8", errors="replace"))
+        if frames and frames[0][1] is not None: return frames[0]
+        return (frames[0][0] if frames else "", "diverged")
+
 def chunks(lines, k):
     size = max(1, (len(lines) + k - 1) // k)
     return [lines[i:i + size] for i in range(0, len(lines), size)]
@@ -121,4 +137,10 @@ def run_both(lines, jobs=14, per_chunk_timeout=60):
         fm = [ex.submit(_run_model_chunk, c) for c in cs]
         impl = [r for f in fi for r in f.result()]
         model = [r for f in fm for r in f.result()]
+    # a case the implementation did not finish although the model did: run it again, alone and patiently
+    # (on a busy machine the watchdog fires on healthy cases); only a repeated failure counts
+    redo = [k for k, ((o, r), (mo, mr, sp)) in enumerate(zip(impl, model))
+            if r in ("diverged", "skipped") and not (mr == "fuel" or mr.endswith(" fuel)"))]
+    for k in redo[:200]:
+        impl[k] = rerun_impl_slow(lines[k])
     return impl, model
